@@ -49,6 +49,14 @@ Calibration
 * ``head(n)`` with the default ``npartitions=1`` and ``tail(n)`` only look at the first/last partition: they are used only
   when that partition holds >= n rows at run time (decided on the dask side, mirrored on the pandas side), otherwise
   ``head(n, npartitions=-1)`` / no step is used on both sides.
+* float ties: ``x[x.c >= x.c.mean()]`` with a value exactly on the threshold gives different rows in pandas and in dask
+  before any rewrite (different summation order, last bit).  After a mismatch the pandas side is re-evaluated with every
+  reduction-valued comparison threshold moved by +-1e-9 (relative); if dask equals one of those, the case is rejected as
+  a float tie (counted ``float_ties``), not reported (false alarm ``logical:filt+pred+reduce:length`` corrected; witness in
+  the thorough run, 1 of 13 242 programs).
+* multiset comparisons (order not promised) sort rows by value; two rows whose floats differ in the last bit were ordered
+  differently on the two sides and then compared index-against-index (false alarm ``logical:elemwise+reduce:values``
+  corrected: floats are rounded to 8 decimals before a multiset comparison; witness set_index('a') + (d*(c+c.sum()))**2).
 * re-optimization groups are only run when the first pass agreed with pandas (they would inherit its failure).
 """
 from __future__ import annotations
@@ -95,11 +103,11 @@ CLAIM = ("Every generated program was optimized by the real optimizer and execut
          "counterexample among the programs observed (all 24 orders of the 4-step space completely; everything else sampled).")
 
 FLOORS = {
-    # ~45 % of the counts measured on the unchanged tree (quick: 1171 evaluations; per-case counters scale with it)
-    "quick": {"evaluations": 520, "distinct_nontrivial": 480,
-              "counters": {"stage_evaluations": 4500, "changed_by_simplify": 480, "fused_programs": 500,
-                           "changed_by_lowering": 370, "changed_by_second_simplify": 90, "programs_with_shared_subexpr": 430,
-                           "programs_agreeing_at_all_stages": 450, "exhaustive_orders": 72},
+    # ~45 % of the counts on the unchanged tree (quick: 883 evaluations, scaled from a measured 1177-case run; thorough measured: 13 242)
+    "quick": {"evaluations": 400, "distinct_nontrivial": 380,
+              "counters": {"stage_evaluations": 3500, "changed_by_simplify": 360, "fused_programs": 380,
+                           "changed_by_lowering": 280, "changed_by_second_simplify": 70, "programs_with_shared_subexpr": 330,
+                           "programs_agreeing_at_all_stages": 370, "exhaustive_orders": 72},
               "sets": {"expr_classes": 35}, "max_skipped_fraction": 0.2},
     "thorough": {"evaluations": 5900, "distinct_nontrivial": 5400,
                  "counters": {"stage_evaluations": 50000, "changed_by_simplify": 5400, "fused_programs": 5600,
@@ -113,8 +121,12 @@ FLOORS = {
 PENDING = {
     "simplified-logical:head-or-tail-pushed-into-scalar-operand-of-elemwise:AttributeError@utils.py:__call__":
         "Head/Tail._simplify_down push head/tail into the scalar (reduction) operand of an elementwise op: (s + s.std()).head() raises (fix proposed)",
-    "simplified-logical:fillna:values":
+    "simplified-logical:projection-through-fillna-dict:values":
         "df.fillna({'c': v})['c']: projection pushed through Fillna with a dict value -> Series.fillna(dict) fills nothing (fix proposed)",
+    "simplified-logical:projection-through-fillna-dict:length":
+        "same mechanism seen through a later filter on the (not) filled column",
+    "simplified-physical:projection-through-fillna-dict:length":
+        "same mechanism when the projection is only pushed by the second simplify (after lowering, under head)",
     "simplified-logical:concat-projected-to-zero-columns:IndexError@dataframe/dask_expr/_concat.py:_meta":
         "concat([a, b]).assign(z=1)['z']: Concat._simplify_up drops all frames when no original column is selected (fix proposed)",
     "logical:concat-projected-to-zero-columns:IndexError@dataframe/dask_expr/_concat.py:_meta":
@@ -130,7 +142,9 @@ PENDING = {
         "collection.optimize().compute() raises Missing dependency (~5 % of programs; no small fix)",
     "reoptimized-fused:fused-group-reads-rewritten-dependency:ValueError@_task_spec.py:fuse":
         "same mechanism, noticed already by Task.fuse while materialising the graph",
-    "simplified-logical:head:length":
+    "simplified-logical:head-of-head-uses-outer-npartitions:values":
+        "same mechanism seen through a later reduction",
+    "simplified-logical:head-of-head-uses-outer-npartitions:length":
         "Head(Head(x, n1, npartitions=-1), n2) is merged into Head(x, min(n), npartitions of the OUTER head): "
         "df.head(4, npartitions=-1, compute=False).head(2) only looks at the first partition (fix proposed)",
     "simplified-logical:projection-pushed-below-sort-head:KeyError@dataframe/dask_expr/_reductions.py:_nfirst":
@@ -195,7 +209,7 @@ def cases(tier, seed):
         yield {"family": "perm", "order": order, "prog": P.perm_program(order), "ord": True, "idx": True,
                "fseed": rng.randrange(10 ** 6), "nrows": n, "index": rng.choice(INDEXES), "part": rand_partition_desc(rng, n)}
     # ---- typed random programs ------------------------------------------------------------------
-    k = 1000 if tier == "quick" else 12000
+    k = 700 if tier == "quick" else 12000
     for j in range(k):
         fam = "chain" if j % 2 == 0 else "dag"
         prog, m = P.random_program(rng, fam)
@@ -332,11 +346,17 @@ def _check(prog, pdf, part, ordered, idx_ok, stages, observe=None):
                     fails.append((st, exc_label(ex), "%s: %s" % (type(ex).__name__, ex), ex, _fused_stale(e) if e is not None else None))
                     break
                 try:
-                    m = frames.compare(val, expected, ordered=ordered, check_index=idx_ok, rtol=1e-9)
+                    m = _cmp(val, expected, ordered, idx_ok)
                     if m is not None and m[0] == "index" and _same_index(val, expected, ordered):
                         m = ("values", m[1])   # frames._classify reads "[index]:" in a VALUES message as an index mismatch
                 except Exception as ex:  # noqa: BLE001  comparison itself failed: treat as a mismatch with the reason
                     m = ("uncomparable", "%s: %s" % (type(ex).__name__, ex))
+                if m is not None and _float_tie(prog, pdf, dec, val, ordered, idx_ok):
+                    # a value sits exactly on a threshold computed by a float reduction (x >= x.mean()): pandas and dask
+                    # sum in different orders, the last bit decides the row.  Float reassociation, not a disagreement.
+                    if observe is not None:
+                        observe("float_tie", True)
+                    return ("reject", "float tie: a value equals a reduction-valued threshold up to rounding")
                 if m is not None:
                     fails.append((st, m[0], "%s | got %s | expected %s" % (m[1], _show(val), _show(expected)), None,
                                   _fused_stale(e) if e is not None else None))
@@ -344,6 +364,51 @@ def _check(prog, pdf, part, ordered, idx_ok, stages, observe=None):
         if fails:
             return ("bad", fails)
         return ("ok", None)
+
+
+def _roundf(x):
+    import pandas as pd
+
+    try:
+        if isinstance(x, pd.Series) and x.dtype.kind == "f":
+            return x.round(8)
+        if isinstance(x, pd.DataFrame):
+            fl = [c for c in x.columns if getattr(x[c].dtype, "kind", "") == "f"]
+            if fl and x.columns.is_unique:
+                x = x.copy()
+                x[fl] = x[fl].round(8)
+    except Exception:  # noqa: BLE001
+        pass
+    return x
+
+
+def _cmp(val, expected, ordered, idx_ok):
+    """frames.compare; for multiset comparisons floats are rounded to 8 decimals first, because the row sort inside the
+    multiset comparison would otherwise order two rows that differ in the last bit differently on the two sides."""
+    from vf.gen import frames
+
+    if not ordered:
+        val, expected = _roundf(val), _roundf(expected)
+    return frames.compare(val, expected, ordered=ordered, check_index=idx_ok, rtol=1e-9)
+
+
+def _float_tie(prog, pdf, dec, val, ordered, idx_ok):
+    """True when the dask value equals the pandas value of the SAME program with every reduction-valued comparison
+    threshold moved by +-1e-9 (relative)."""
+    from vf.gen import c43_programs as P
+    from vf.gen import frames
+
+    if not any(nd[0] == "sbin" and nd[1] in ("gt", "lt", "ge", "le", "eq", "ne") and
+               any("n" in o and prog["nodes"][o["n"]][0] in ("red", "cbin") for o in nd[2:4]) for nd in prog["nodes"]):
+        return False
+    for eps in (1e-9, -1e-9):
+        try:
+            alt = P.evaluate(prog, pdf, "pd", dict(dec), nudge=eps)
+            if _cmp(val, alt, ordered, idx_ok) is None:
+                return True
+        except Exception:  # noqa: BLE001
+            continue
+    return False
 
 
 def _same_index(a, b, ordered=True):
@@ -429,7 +494,7 @@ def run_case(case, ctx):
         e0 = seen.get("expr")
         if e0 is not None:
             for e in seen.values():
-                if e is None:
+                if e is None or not hasattr(e, "walk"):
                     continue
                 for n in e.walk():
                     ctx.distinct("expr_classes", type(n).__name__)
@@ -469,6 +534,8 @@ def run_case(case, ctx):
     ctx.nontrivial = nlive >= 3 and ((npart or 1) >= 2 or changed or fusedn or lowered_changed)
 
     if r[0] == "reject":
+        if seen.get("float_tie"):
+            ctx.count("float_ties")
         ctx.reject(r[1])
         return
     if r[0] == "unsupported":
@@ -519,6 +586,16 @@ def _label(stage, symptom, message, small):
         # sort_values(k).head/tail(n) became NFirst/NLast and a later projection was pushed below it without keeping k
         # (KeyError) or turning the frame into a Series (TypeError: Series.sort_values(by=))
         return "%s:projection-pushed-below-sort-head:%s" % (stage, symptom)
+    nodes = small["nodes"]
+    lv = P.live(small)
+    if not symptom.count("@") and any(nodes[i][0] in ("head", "head1") and nodes[nodes[i][1]][0] in ("head", "head1") for i in lv):
+        # Head(Head(x, n1, p1), n2, p2) is merged into Head(x, min(n1, n2), p2): the outer head's npartitions.  The shrinker
+        # kept both heads, i.e. bypassing either one makes the disagreement disappear.
+        return "%s:head-of-head-uses-outer-npartitions:%s" % (stage, symptom)
+    if stage != "logical" and not symptom.count("@") and any(nodes[i][0] == "fillna" and isinstance(nodes[i][2], dict) for i in lv):
+        # the frame-level fillna({col: v}) survived shrinking (bypassing it removes the disagreement): a column projection
+        # pushed through Fillna turns the per-column mapping into Series.fillna(dict), which fills nothing
+        return "%s:projection-through-fillna-dict:%s" % (stage, symptom)
     if stage != "logical" and not symptom.count("@") and _concat_of_different_columns(small):
         # Projection(Concat(axis=0)) drops every input frame that lacks the selected columns, and with it its rows
         return "%s:projection-through-concat-of-frames-with-different-columns:%s" % (stage, symptom)
